@@ -40,7 +40,8 @@ func (t *XMPPTransport) Connect() (string, error) {
 
 	t.conn, err = net.DialTimeout("tcp", t.Config.Address, time.Duration(t.Config.ConnectTimeout)*time.Second)
 	if err != nil {
-		return "", NewConnError(err, true)
+		// The server may be down or restarting: this is not a permanent error, connecting can be tried again
+		return "", NewConnError(err, false)
 	}
 
 	t.closeChan = make(chan stanza.StreamClosePacket)
